@@ -14,7 +14,7 @@ from cddvc import e1
 from cddvc.report import Run, compare_baseline
 from checks import common, domain, roundtrip as R, rt_matrix as M
 
-TYPES = ["int", "float", "str", "bool", "Optional[int]", "Optional[str]", "Literal['x', 'y']", "List[str]", "Union[int, str]", "dict"]
+TYPES = ["int", "float", "str", "bool", "Optional[int]", "Optional[str]", "Literal['x', 'y']", "List[str]", "Union[int, str]", "dict", domain.LONG_LITERAL, domain.LONG_UNION]
 
 
 def contract(cell, ir):
@@ -45,7 +45,8 @@ def contract(cell, ir):
     if d:
         field = "names" if d.startswith("parameter names") else ("returns" if d.startswith("return entry") else (d.split(":")[0] if d.startswith("returns.") else d.split(":")[0].split(".")[-1]))
         src = ir["params"].get(d.split(".")[0], {}) if field not in ("names", "returns") and not field.startswith("returns.") else {}
-        out.append((("roundtrip", style, "defaults_in_doc=%s" % edd, "types=%s" % et, field, M.typ_class(src.get("typ")) if src else "-", M.default_class(src) if src else "-"),
+        wrapped = et and not src and any(len(p.get("typ") or "") > 85 for p in ir["params"].values())
+        out.append((("roundtrip", style, "defaults_in_doc=%s" % edd, "types=%s" % et, field, M.typ_class(src.get("typ")) if src else ("wrapped-type" if wrapped else "-"), M.default_class(src) if src else "-"),
                     "%s; emitted docstring:\n%s" % (d, text[-300:]), None))
     return out
 
